@@ -247,6 +247,7 @@ func (vc *VC) runAsserts(ins ssa.Instruction, st *State) {
 		return
 	}
 	env := vc.localEnv(ins.Block(), vc.contractEnv(nil))
+	vc.bindCallResults(ins, env)
 	for _, a := range as {
 		goal := vc.evalBool(a.C.E, env, st, vc.entry)
 		name := a.C.Label
@@ -267,7 +268,17 @@ func (vc *VC) runUpdates(ins ssa.Instruction, st *State) {
 		return
 	}
 	env := vc.localEnv(ins.Block(), vc.contractEnv(nil))
-	// results of the call just made: ret0, ret1, ...
+	vc.bindCallResults(ins, env)
+	for _, u := range us {
+		for _, a := range u.Assigns {
+			vc.ghostAssign(a, env, st)
+		}
+	}
+}
+
+// bindCallResults exposes the results of the call just made as ret0, ret1, ...
+// and its ghost results by name.
+func (vc *VC) bindCallResults(ins ssa.Instruction, env *Env) {
 	if call, ok := ins.(*ssa.Call); ok {
 		if rv, ok := vc.regs[call]; ok {
 			if rv.K == KTuple {
@@ -285,11 +296,6 @@ func (vc *VC) runUpdates(ins ssa.Instruction, st *State) {
 	for n, v := range vc.lastGhostResults {
 		v := v
 		env.names[n] = envEntry{val: &v}
-	}
-	for _, u := range us {
-		for _, a := range u.Assigns {
-			vc.ghostAssign(a, env, st)
-		}
 	}
 }
 
